@@ -243,7 +243,9 @@ func (e *vf4Env) vf4SeqOp(f []string) string {
 		}
 		pl, _ := vf4Payload(tok)
 		wires[v.user] = hex.EncodeToString(pl)
-		const ins = "insert into expiring_signed_user_data(username, type, jws_data, expiration_epoch, update_epoch) values(?,?,?,?,?)"
+		// "or replace": the state's own BackgroundDBCopy (first run dbSyncDelayDefault after start-up) may copy the
+		// primary row into the local copy between the two statements
+		const ins = "insert or replace into expiring_signed_user_data(username, type, jws_data, expiration_epoch, update_epoch) values(?,?,?,?,?)"
 		if _, err := st.db.Exec(ins, v.user, 1, tok, exp, start); err != nil {
 			return "harness-error " + err.Error()
 		}
